@@ -6,7 +6,7 @@ git -C /repo worktree add -q --detach /tmp/wt-x HEAD
 cd /tmp/wt-x
 [ -n "$base" ] && git apply $base
 python3 /tmp/edit.py
-git diff > /verif/mutants/patches/$name.diff
+git add -N . ; git diff > /verif/mutants/patches/$name.diff
 cd /verif
 git -C /repo worktree remove --force /tmp/wt-x
 python3 - "$name" "$prop" "$note" <<'PY'
